@@ -24,11 +24,14 @@ import (
 	"errors"
 	"fmt"
 	ssi "github.com/nuts-foundation/go-did"
+	"github.com/nuts-foundation/nuts-node/http/client"
 	"github.com/nuts-foundation/nuts-node/jsonld/log"
 	"github.com/nuts-foundation/nuts-node/vcr/assets"
 	"github.com/piprate/json-gold/ld"
 	"io/fs"
+	"net/http"
 	"net/url"
+	"time"
 )
 
 // ContextsConfig contains config for json-ld document loader
@@ -182,6 +185,28 @@ func DefaultAllowList() []string {
 	return []string{SchemaOrgContext, W3cVcContext, Jws2020Context, W3cStatusList2021Context}
 }
 
+// remoteContextTimeout is the time-out for retrieving a remote context.
+const remoteContextTimeout = 30 * time.Second
+
+// remoteContextTransport is the http.RoundTripper for retrieving remote contexts. The JSON-LD library requires a http.Client,
+// so it can't use client.StrictHTTPClient. This makes the same checks: in strict mode every request (including those
+// that follow from a redirect or a Link header) must be over HTTPS, and the size of a response is limited.
+type remoteContextTransport struct {
+	strictMode bool
+}
+
+func (r remoteContextTransport) RoundTrip(request *http.Request) (*http.Response, error) {
+	if r.strictMode && request.URL.Scheme != "https" {
+		return nil, errors.New("strictmode is enabled, but request is not over HTTPS")
+	}
+	response, err := client.SafeHttpTransport.RoundTrip(request)
+	if err != nil {
+		return nil, err
+	}
+	response.Body = http.MaxBytesReader(nil, response.Body, client.DefaultMaxHttpResponseSize)
+	return response, nil
+}
+
 // NewContextLoader creates a new JSON-LD context loader with the embedded FS as first loader.
 // It loads the most used context from the embedded FS. This ensures the contents cannot be altered.
 // If allowExternalCalls is set to true, it also loads external context from the internet.
@@ -195,7 +220,11 @@ func NewContextLoader(allowUnlistedExternalCalls bool, contexts ContextsConfig) 
 			NewEmbeddedFSDocumentLoader(assets.Assets,
 				// Last in the chain is the defaultLoader which can resolve
 				// local files and remote (via http) context documents
-				ld.NewDefaultDocumentLoader(nil))))
+				ld.NewDefaultDocumentLoader(&http.Client{
+					// external calls that are not on the allow list are only allowed when not in strict mode
+					Transport: remoteContextTransport{strictMode: !allowUnlistedExternalCalls},
+					Timeout:   remoteContextTimeout,
+				}))))
 
 	// If unlisted calls are not allowed, filter all calls to the defaultLoader
 	if !allowUnlistedExternalCalls {
